@@ -59,6 +59,13 @@ class C19Struct(Scenario):
         r = rng.below(100)
         if r < 55:
             return {"op": "mut", "m": self.sub.gen_op(rng)}
+        if r < 62 and self.cfg["subject"] in ("BloomFilter", "CountingBloomFilter"):
+            # states reached through set operations / the public counter setter: bits set with an ESTIMATED or
+            # caller-chosen element count (possibly 0)
+            if rng.chance(1, 3):
+                return {"op": "setcount", "v": rng.choice((0, 0, 1, 7))}
+            return {"op": "derive", "which": rng.choice(("intersection", "union")),
+                    "ks": [rng.below(self.cfg["universe"] + 3) for _ in range(rng.between(0, 4))]}
         if r < 90:
             return {"op": "reads", "calls": gen_reads(rng, self.cfg["universe"], rng.between(1, 8))}
         if self.cfg["subject"] in CLEARABLE:
@@ -216,6 +223,22 @@ class C19Struct(Scenario):
                 ctx.count("mutation_raised." + type(e).__name__)
                 return {"r": "exc"}
             return {"r": "ok"}
+        if op in ("derive", "setcount"):
+            if sub.name not in ("BloomFilter", "CountingBloomFilter"):
+                return "skip"
+            if op == "setcount":
+                sub.obj.elements_added = step["v"]
+                ctx.fault("counter_set")
+                return {"r": "ok"}
+            sib = self.sibling(step["ks"])
+            res = getattr(sub.obj, step["which"])(sib)
+            if res is None:
+                return "skip"
+            sub.obj = res
+            sub.model = {}
+            sub.cfg["saturated"] = True  # the Counter model no longer bounds removals
+            ctx.fault("derived_state")
+            return {"r": "ok", "count": res.elements_added}
         if op == "reads":
             before = self.snapshot()
             for call in step["calls"]:
